@@ -4,6 +4,7 @@ import (
 	"bytes"
 	"crypto/sha256"
 	"fmt"
+	"io"
 	"net/http"
 	"net/url"
 	"os"
@@ -256,11 +257,32 @@ func annotate(h *history) {
 type respWriter struct {
 	bytes.Buffer
 	h      http.Header
+	sent   http.Header // the headers as they were when the response started
 	status int
 }
 
-func (w *respWriter) Header() http.Header  { return w.h }
-func (w *respWriter) WriteHeader(code int) { w.status = code }
+func (w *respWriter) Header() http.Header { return w.h }
+
+// net/http sends the header map as it is at the first WriteHeader / Write: later changes are lost
+func (w *respWriter) freeze() {
+	if w.sent == nil {
+		w.sent = w.h.Clone()
+	}
+}
+func (w *respWriter) WriteHeader(code int) {
+	if w.sent == nil {
+		w.status = code
+	}
+	w.freeze()
+}
+func (w *respWriter) Write(b []byte) (int, error) {
+	w.freeze()
+	return w.Buffer.Write(b)
+}
+func (w *respWriter) ReadFrom(r io.Reader) (int64, error) {
+	w.freeze()
+	return w.Buffer.ReadFrom(r)
+}
 
 type response struct {
 	status int
@@ -272,7 +294,11 @@ func fetch(m *gohlslib.Muxer, pathAndQuery string) response {
 	u, _ := url.Parse("http://localhost/" + pathAndQuery)
 	w := &respWriter{h: make(http.Header)}
 	m.Handle(w, &http.Request{URL: u, Method: "GET"})
-	return response{status: w.status, ctype: w.h.Get("Content-Type"), body: append([]byte{}, w.Bytes()...)}
+	hd := w.sent
+	if hd == nil {
+		hd = w.h
+	}
+	return response{status: w.status, ctype: hd.Get("Content-Type"), body: append([]byte{}, w.Bytes()...)}
 }
 
 // ---- structural URIs ----
@@ -590,6 +616,7 @@ type rotation struct {
 	k          int // write index
 	playlists  []*parsedMedia
 	deltas     []*parsedMedia // Low-Latency: the same playlists requested with _HLS_skip=YES, same instant
+	window     []winObs       // what a reader sees right after the rotation released the mutex, before Write returns
 	plRaw      []string
 	index      *parsedMulti
 	indexRaw   string
@@ -601,6 +628,15 @@ type rotation struct {
 	segRotated bool
 	dirFiles   []string
 	probes     []probe
+}
+
+// winObs: a stream's media playlist and the init segment it names, fetched from inside the rotation's
+// "mutex released" yield point (build tag verif), i.e. by a reader scheduled between the rotation and whatever
+// the writer still does before Write returns
+type winObs struct {
+	si   int
+	pm   *parsedMedia
+	init []byte
 }
 
 type probe struct {
@@ -646,7 +682,13 @@ func mkTracks(h *history) []*gohlslib.Track {
 		case kAV1:
 			tr.Codec = &codecs.AV1{SequenceHeader: av1SeqHdrOf(t.Params0)}
 		case kAAC:
-			tr.Codec = &codecs.MPEG4Audio{Config: mpeg4audio.Config{Type: 2, SampleRate: int(t.SRate), ChannelCount: 2}}
+			cfg := mpeg4audio.Config{Type: 2, SampleRate: int(t.SRate), ChannelCount: 2}
+			if (t.Name+t.Lang+len(h.Tracks))%3 == 1 && t.SRate <= 48000 {
+				// explicit SBR signalling (HE-AAC): the extension sample rate is NOT the track's time scale
+				cfg.ExtensionType = mpeg4audio.ObjectTypeSBR
+				cfg.ExtensionSampleRate = int(2 * t.SRate)
+			}
+			tr.Codec = &codecs.MPEG4Audio{Config: cfg}
 		case kOpus:
 			tr.Codec = &codecs.Opus{ChannelCount: 2}
 		}
@@ -695,7 +737,8 @@ func variantOf(v int) gohlslib.MuxerVariant {
 type faultFactory struct {
 	inner storage.Factory
 	fail  map[int]bool
-	n     int
+	wfail map[int]bool
+	n, wn int
 	mu    sync.Mutex
 }
 
@@ -707,7 +750,42 @@ func (f *faultFactory) NewFile(fileName string) (storage.File, error) {
 	if f.fail[k] {
 		return nil, fmt.Errorf("open %s: too many open files (injected)", fileName)
 	}
-	return f.inner.NewFile(fileName)
+	fl, err := f.inner.NewFile(fileName)
+	if err != nil || len(f.wfail) == 0 {
+		return fl, err
+	}
+	return &faultFile{File: fl, f: f}, nil
+}
+
+// write faults: the listed Write calls on part writers fail like a write on a full disk
+type faultFile struct {
+	storage.File
+	f *faultFactory
+}
+
+func (ff *faultFile) NewPart() storage.Part { return &faultPart{Part: ff.File.NewPart(), f: ff.f} }
+
+type faultPart struct {
+	storage.Part
+	f *faultFactory
+}
+
+func (fp *faultPart) Writer() io.WriteSeeker { return &faultWriter{WriteSeeker: fp.Part.Writer(), f: fp.f} }
+
+type faultWriter struct {
+	io.WriteSeeker
+	f *faultFactory
+}
+
+func (fw *faultWriter) Write(b []byte) (int, error) {
+	fw.f.mu.Lock()
+	k := fw.f.wn
+	fw.f.wn++
+	fw.f.mu.Unlock()
+	if fw.f.wfail[k] {
+		return 0, fmt.Errorf("write: no space left on device (injected)")
+	}
+	return fw.WriteSeeker.Write(b)
 }
 
 func runImpl(h *history, dir string) (res *runResult) {
@@ -745,13 +823,16 @@ func runImpl(h *history, dir string) (res *runResult) {
 		}
 		m.Close()
 	}()
-	if len(h.Faults) > 0 {
-		fail := map[int]bool{}
+	if len(h.Faults) > 0 || len(h.WriteFaults) > 0 {
+		fail, wfail := map[int]bool{}, map[int]bool{}
 		for _, f := range h.Faults {
 			fail[f] = true
 		}
+		for _, f := range h.WriteFaults {
+			wfail[f] = true
+		}
 		gohlslib.VerifWrapStorage(m, func(inner storage.Factory) storage.Factory {
-			return &faultFactory{inner: inner, fail: fail}
+			return &faultFactory{inner: inner, fail: fail, wfail: wfail}
 		})
 	}
 
@@ -803,12 +884,39 @@ func runImpl(h *history, dir string) (res *runResult) {
 		tsKinds[i] = decKind(h, t.Kind)
 	}
 	everListed := map[string]bool{}
+	lastFetched := "" // the URI of the last request of the previous round (see the end of the loop)
 
+	var window []winObs
+	gohlslib.VerifSetHook(func(point string) {
+		if point != "rotateSegments:unlocked" || h.Variant == 1 {
+			return
+		}
+		st := gohlslib.VerifSnapshot(m)
+		for si, s := range st.Streams {
+			if s.SegmentCount < 1 || (h.Variant == 2 && s.SegmentCount < 2) {
+				continue // the request would block
+			}
+			r := fetch(m, s.ID+"_stream.m3u8"+q)
+			if r.status != 200 {
+				continue
+			}
+			pm := parseMedia(string(r.body))
+			if pm.err != "" || pm.mapURI == "" {
+				continue
+			}
+			window = append(window, winObs{si: si, pm: pm, init: fetch(m, pm.mapURI).body})
+		}
+	})
+	defer gohlslib.VerifSetHook(nil)
+	ntpLoc := []*time.Location{time.UTC, time.FixedZone("east", 2*3600), time.FixedZone("west", -(5*3600 + 1800))}[(len(h.Ops)+h.SegCount)%3]
 	for k := range h.Ops {
 		a := &h.Ops[k]
 		c := concretize(h, a)
 		tr := tracks[a.Track]
-		ntp := time.Unix(0, a.NTP)
+		// the same instant, in a location that is not UTC for two histories in three (PROGRAM-DATE-TIME must not
+		// depend on the location of the time.Time the application passes)
+		ntp := time.Unix(0, a.NTP).In(ntpLoc)
+		window = nil
 		var err error
 		switch h.Tracks[a.Track].Kind {
 		case kH264:
@@ -859,7 +967,19 @@ func runImpl(h *history, dir string) (res *runResult) {
 			prev = snap
 			continue
 		}
-		rot := &rotation{k: k, snap: snap, segRotated: segCounters(snap) != segCounters(prev)}
+		rot := &rotation{k: k, snap: snap, segRotated: segCounters(snap) != segCounters(prev), window: window}
+		if lastFetched != "" {
+			pth, _ := stripQuery(lastFetched)
+			still := false
+			for _, p := range snap.Paths {
+				if p == pth {
+					still = true
+				}
+			}
+			if !still {
+				rot.probes = append(rot.probes, probe{uri: lastFetched, listed: false, resp: fetch(m, lastFetched)})
+			}
+		}
 		// playlists
 		for si, s := range snap.Streams {
 			var pm *parsedMedia
@@ -1155,6 +1275,22 @@ func runImpl(h *history, dir string) (res *runResult) {
 				rot.dirFiles = append(rot.dirFiles, e.Name())
 			}
 			sort.Strings(rot.dirFiles)
+		}
+		// the very last request of this round is for the oldest listed segment of the first stream that lists one: if
+		// the next rotation evicts it, it is also the very first request after that rotation (a server that remembers
+		// its last lookup must forget it when the path is unregistered)
+		lastFetched = ""
+		for _, pm := range rot.playlists {
+			if pm == nil || pm.err != "" || lastFetched != "" {
+				continue
+			}
+			for _, sg := range pm.segs {
+				if !sg.gap {
+					lastFetched = sg.uri
+					fetch(m, sg.uri)
+					break
+				}
+			}
 		}
 		res.rotations = append(res.rotations, rot)
 		prev = snap
